@@ -97,74 +97,170 @@ func (m *M) materialise(mo *MapObj, i int) {
 	}
 }
 
+// VC: vector clock indexed by task id.
+type VC []int
+
+func (v VC) at(i int) int {
+	if i < len(v) {
+		return v[i]
+	}
+	return 0
+}
+func (v VC) clone() VC { return append(VC(nil), v...) }
+func joinVC(a, b VC) VC {
+	if len(b) > len(a) {
+		a = append(a, make(VC, len(b)-len(a))...)
+	}
+	for i, x := range b {
+		if x > a[i] {
+			a[i] = x
+		}
+	}
+	return a
+}
+
+// accRec: one class of accesses of a task to a location — same epoch (no synchronisation in between), same lockset.
+type accRec struct {
+	vc     VC // the task's clock when the accesses were made (immutable snapshot)
+	locks  string
+	write  bool
+	atomic bool
+}
+
 type Task struct {
 	id     int
 	fn     Closure
 	args   []Value
-	reads  map[string]int // "location\x00lockset" -> sequence number of the LAST such access
-	writes map[string]int
-	parent  *Task
-	bornSeq int // sequence number at the go statement: the spawner's earlier accesses happen before everything here
+	parent *Task
 	held   map[string]int
-	// atomic accesses: never in conflict with each other, but in conflict with a plain access of another goroutine
-	areads  map[string]int
-	awrites map[string]int
-	done    bool
+	// happens-before: vector clock, snapshot shared by the accesses of the current epoch
+	vc   VC
+	snap VC
+	acc  map[string][]accRec
+	done bool
+	// coroutine state: every goroutine of the program under test runs on a Go goroutine of its own; exactly one of them
+	// holds the baton. A goroutine that cannot proceed parks with the condition it waits for.
+	wake     chan struct{}
+	started  bool
+	finished bool
+	cond     func() bool
+	what     string
+	sDefer   []*frame
+	sDepth   int
+	sStack   []*ssa.Function
 }
 
-type WG struct{ n int }
+type WG struct {
+	n  int
+	vc VC
+}
+
+type taskKill struct{}
 
 type Sched struct {
-	seq     int // sequence numbers of recorded accesses
-	pending []*Task
-	all     []*Task
-	cur     *Task
-	mainT   *Task
-	wgs     map[*Obj]*WG
-	joined  bool
+	all       []*Task
+	cur       *Task
+	mainT     *Task
+	wgs       map[*Obj]*WG
+	syncVC    map[string]VC // mutexes, onces, atomically accessed words
+	joined    bool
+	killing   bool
+	killAck   chan struct{}
+	taskPanic interface{}
 }
 
 func newSched() *Sched {
-	s := &Sched{wgs: map[*Obj]*WG{}}
-	s.mainT = &Task{id: 0, reads: map[string]int{}, writes: map[string]int{}}
+	s := &Sched{wgs: map[*Obj]*WG{}, syncVC: map[string]VC{}, killAck: make(chan struct{})}
+	s.mainT = &Task{id: 0, acc: map[string][]accRec{}, vc: VC{1}, started: true, wake: make(chan struct{})}
 	s.cur = s.mainT
 	s.all = []*Task{s.mainT}
 	return s
 }
 
-func locKey(p Ptr) string { return fmt.Sprintf("%s#%d%v", p.obj.name, p.obj.id, p.path) }
-
-func (m *M) recordAccess(p Ptr, write bool) {
-	s := m.sched
-	if s == nil || p.obj == nil || !m.tracking || p.obj.ghost || (s.cur == s.mainT && s.joined) {
-		return
+// unfinished: goroutines started by a go statement that have not returned yet (never run, or parked)
+func (s *Sched) unfinished() int {
+	n := 0
+	for _, t := range s.all {
+		if t != s.mainT && !t.finished {
+			n++
+		}
 	}
-	t := s.cur
-	k := locKey(p) + "\x00" + t.lockset()
-	s.seq++
-	if write {
-		t.writes[k] = s.seq
-	} else {
-		t.reads[k] = s.seq
+	return n
+}
+
+// runnable: every goroutine other than t that could run now: not started yet, or parked with its condition fulfilled
+func (s *Sched) runnable(t *Task) []*Task {
+	var r []*Task
+	for _, o := range s.all {
+		if o == t || o.finished {
+			continue
+		}
+		if !o.started || (o.cond != nil && o.cond()) {
+			r = append(r, o)
+		}
+	}
+	return r
+}
+
+func (t *Task) tick() { // after a release: later accesses are not covered by it
+	for len(t.vc) <= t.id {
+		t.vc = append(t.vc, 0)
+	}
+	t.vc[t.id]++
+	t.snap = nil
+}
+func (t *Task) acquire(v VC) {
+	if len(v) > 0 {
+		t.vc = joinVC(t.vc, v)
+		t.snap = nil
+	}
+}
+func (t *Task) release() VC { v := t.vc.clone(); t.tick(); return v }
+
+func (m *M) syncAcquire(key string) {
+	if s := m.sched; s != nil {
+		s.cur.acquire(s.syncVC[key])
+	}
+}
+func (m *M) syncRelease(key string) {
+	if s := m.sched; s != nil {
+		s.syncVC[key] = joinVC(s.syncVC[key].clone(), s.cur.release())
 	}
 }
 
-// recordAtomic: footprint of a sync/atomic operation
-func (m *M) recordAtomic(p Ptr, write bool) {
+func locKey(p Ptr) string { return fmt.Sprintf("%s#%d%v", p.obj.name, p.obj.id, p.path) }
+
+func (m *M) record(p Ptr, write, atomic bool) {
 	s := m.sched
 	if s == nil || p.obj == nil || !m.tracking || p.obj.ghost || (s.cur == s.mainT && s.joined) {
 		return
 	}
 	t := s.cur
-	if t.areads == nil {
-		t.areads, t.awrites = map[string]int{}, map[string]int{}
+	if t.snap == nil {
+		t.snap = t.vc.clone()
 	}
-	k := locKey(p) + "\x00" + t.lockset()
-	s.seq++
+	k := locKey(p)
+	ls := t.lockset()
+	for _, r := range t.acc[k] {
+		if r.write == write && r.atomic == atomic && r.locks == ls && &r.vc[0] == &t.snap[0] {
+			return
+		}
+	}
+	t.acc[k] = append(t.acc[k], accRec{vc: t.snap, locks: ls, write: write, atomic: atomic})
+}
+
+func (m *M) recordAccess(p Ptr, write bool) { m.record(p, write, false) }
+
+// recordAtomic: footprint of a sync/atomic operation; it also synchronises (a store releases, every operation acquires)
+func (m *M) recordAtomic(p Ptr, write bool) {
+	if m.sched == nil || p.obj == nil {
+		return
+	}
+	key := "atomic:" + locKey(p)
+	m.syncAcquire(key)
+	m.record(p, write, true)
 	if write {
-		t.awrites[k] = s.seq
-	} else {
-		t.areads[k] = s.seq
+		m.syncRelease(key)
 	}
 }
 
@@ -198,12 +294,18 @@ func (m *M) lockOp(p Ptr, shared bool, delta int) {
 	}
 	id := fmt.Sprintf("%d%v", p.obj.id, p.path)
 	if delta > 0 {
-		// a goroutine that blocks while holding a mutex would make another one wait here: not modelled
-		for _, o := range s.all {
-			if o != t && (o.held["X"+id] > 0 || (!shared && o.held["S"+id] > 0)) {
-				panic(engineErr("mutex acquired while another goroutine holds it across a blocking point (not modelled)"))
+		// a goroutine that parked while holding the mutex makes this one wait
+		m.block(func() bool {
+			for _, o := range s.all {
+				if o != t && (o.held["X"+id] > 0 || (!shared && o.held["S"+id] > 0)) {
+					return false
+				}
 			}
-		}
+			return true
+		}, "mutex held by a goroutine that cannot proceed")
+		m.syncAcquire("mutex:" + id)
+	} else {
+		m.syncRelease("mutex:" + id)
 	}
 	k += id
 	t.held[k] += delta
@@ -252,105 +354,178 @@ func (m *M) spawn(fn Closure, args []Value) {
 		panic(mergeAbort{"go statement"})
 	}
 	s := m.sched
-	t := &Task{id: len(s.all), fn: fn, args: args, reads: map[string]int{}, writes: map[string]int{}, parent: s.cur}
-	s.all = append(s.all, t)
-	s.pending = append(s.pending, t)
 	if !m.tracking {
 		m.tracking = true
 		s.joined = false
-		s.mainT.reads, s.mainT.writes = map[string]int{}, map[string]int{}
+		s.mainT.acc = map[string][]accRec{}
 	}
-	t.bornSeq = s.seq
+	t := &Task{id: len(s.all), fn: fn, args: args, acc: map[string][]accRec{}, parent: s.cur, wake: make(chan struct{})}
+	// what the spawner did before the go statement happens before everything the new goroutine does
+	t.vc = s.cur.release()
+	for len(t.vc) <= t.id {
+		t.vc = append(t.vc, 0)
+	}
+	t.vc[t.id] = 1
+	s.all = append(s.all, t)
+	s.joined = false
 }
 
-// runTask runs one pending task to completion. A panic escaping a goroutine kills the process.
-func (m *M) runTask(k int) {
+// block: the current goroutine cannot proceed until cond holds. Another goroutine that can run is chosen (a scheduling
+// decision) and gets the baton; this one parks. No goroutine able to run = deadlock.
+func (m *M) block(cond func() bool, what string) {
 	s := m.sched
-	t := s.pending[k]
-	s.pending = append(append([]*Task{}, s.pending[:k]...), s.pending[k+1:]...)
-	saved := s.cur
-	s.cur = t
-	savedDefer := m.deferStack
-	m.deferStack = nil
-	func() {
+	t := s.cur
+	for !cond() {
+		if m.merging > 0 {
+			panic(mergeAbort{"blocking operation"})
+		}
+		c := s.runnable(t)
+		if len(c) == 0 {
+			panic(pathEnd{"DEADLOCK: " + what})
+		}
+		next := c[m.decide(len(c), "schedule")]
+		t.cond, t.what = cond, what
+		m.switchTo(next)
+		t.cond = nil
+	}
+}
+
+func (m *M) switchTo(next *Task) {
+	s := m.sched
+	t := s.cur
+	t.sDefer, t.sDepth, t.sStack = m.deferStack, m.depth, append([]*ssa.Function(nil), m.stack...)
+	m.activate(next)
+	<-t.wake
+	if s.killing {
+		panic(taskKill{})
+	}
+	if t == s.mainT && s.taskPanic != nil {
+		p := s.taskPanic
+		s.taskPanic = nil
+		panic(p)
+	}
+}
+
+// activate hands the baton to next; the caller parks or exits right afterwards.
+func (m *M) activate(next *Task) {
+	s := m.sched
+	s.cur = next
+	m.deferStack, m.depth, m.stack = next.sDefer, next.sDepth, append(m.stack[:0], next.sStack...)
+	if !next.started {
+		next.started = true
+		go m.taskMain(next)
+	} else {
+		next.wake <- struct{}{}
+	}
+}
+
+// taskMain: body of one goroutine of the program under test. A Go panic escaping it kills the process; any other way
+// in which the path ends here (violation, engine error, budget) is handed to the main goroutine, which re-raises it.
+func (m *M) taskMain(t *Task) {
+	s := m.sched
+	defer func() {
+		r := recover()
+		if s.killing {
+			s.killAck <- struct{}{}
+			return
+		}
+		t.finished, t.done = true, true
+		deliver := func(r interface{}) {
+			if gp, ok := r.(goPanic); ok {
+				r = pathEnd{"PROCESS-ABORT: panic escaped a goroutine: " + gp.msg + " @" + gp.pos}
+			}
+			s.taskPanic = r
+			m.activate(s.mainT)
+		}
+		if r != nil {
+			deliver(r)
+			return
+		}
 		defer func() {
-			if r := recover(); r != nil {
-				if gp, ok := r.(goPanic); ok {
-					panic(pathEnd{"PROCESS-ABORT: panic escaped a goroutine: " + gp.msg + " @" + gp.pos})
-				}
-				panic(r)
+			if r2 := recover(); r2 != nil {
+				deliver(r2)
 			}
 		}()
-		m.callImpl(t.fn.fn, t.args, t.fn.fv)
+		c := s.runnable(t)
+		if len(c) == 0 {
+			why := "every goroutine is blocked"
+			for _, o := range s.all {
+				if !o.finished && o.cond != nil {
+					why = o.what
+					break
+				}
+			}
+			panic(pathEnd{"DEADLOCK: " + why})
+		}
+		m.activate(c[m.decide(len(c), "schedule")])
 	}()
-	m.deferStack = savedDefer
-	t.done = true
-	s.cur = saved
+	m.callImpl(t.fn.fn, t.args, t.fn.fv)
+}
+
+// killTasks: the path is over; unwind every parked goroutine.
+func (m *M) killTasks() {
+	s := m.sched
+	if s == nil {
+		return
+	}
+	s.killing = true
+	for _, t := range s.all {
+		if t != s.mainT && t.started && !t.finished {
+			m.deferStack, m.depth, m.stack = t.sDefer, t.sDepth, append(m.stack[:0], t.sStack...)
+			t.wake <- struct{}{}
+			<-s.killAck
+			t.finished = true
+		}
+	}
+	s.killing = false
+	s.cur = s.mainT
 }
 
 func (m *M) wait(w *WG) {
 	s := m.sched
-	for w.n > 0 {
-		if len(s.pending) == 0 {
-			panic(pathEnd{"DEADLOCK: WaitGroup.Wait with counter > 0 and no runnable goroutine"})
-		}
-		k := m.decide(len(s.pending), "schedule")
-		m.runTask(k)
-	}
+	m.block(func() bool { return w.n <= 0 }, "WaitGroup.Wait with counter > 0 and no runnable goroutine")
 	if w.n < 0 {
 		panic(goPanic{msg: "sync: negative WaitGroup counter"})
 	}
-	if len(s.pending) == 0 {
+	s.cur.acquire(w.vc)
+	if s.cur == s.mainT && s.unfinished() == 0 {
 		s.joined = true
 	}
 }
 
-// spawnedAfter: is task d a descendant of task t that was started (transitively) by a go statement executed after t's
-// access with sequence number seq? Then that access happens before everything d does.
-func spawnedAfter(t *Task, seq int, d *Task) bool {
-	for c := d; c != nil && c.parent != nil; c = c.parent {
-		if c.parent == t {
-			return seq <= c.bornSeq
-		}
-	}
-	return false
-}
+// happensBefore: every access of record a (by task ta) precedes every access of record b
+func happensBefore(a accRec, ta *Task, b accRec) bool { return a.vc.at(ta.id) <= b.vc.at(ta.id) }
 
 func (m *M) checkRaces() []string {
 	var out []string
+	seen := map[string]bool{}
 	s := m.sched
 	for i, a := range s.all {
 		for j, b := range s.all {
 			if i >= j {
 				continue
 			}
-			conflict := func(x, y map[string]int, tx, ty *Task) {
-				for kx, sx := range x {
-					if spawnedAfter(tx, sx, ty) {
-						continue // all of tx's accesses of this kind precede the go statement that leads to ty
-					}
-					lx, hx := splitAccess(kx)
-					for ky, sy := range y {
-						if spawnedAfter(ty, sy, tx) {
+			for k, ras := range a.acc {
+				rbs := b.acc[k]
+				for _, ra := range ras {
+					for _, rb := range rbs {
+						if !ra.write && !rb.write {
 							continue
 						}
-						ly, hy := splitAccess(ky)
-						if lx == ly && !protected(hx, hy) {
-							out = append(out, fmt.Sprintf("goroutine%d/goroutine%d on %s", a.id, b.id, lx))
+						if ra.atomic && rb.atomic {
+							continue
+						}
+						if protected(ra.locks, rb.locks) || happensBefore(ra, a, rb) || happensBefore(rb, b, ra) {
+							continue
+						}
+						d := fmt.Sprintf("goroutine%d/goroutine%d on %s", a.id, b.id, k)
+						if !seen[d] {
+							seen[d] = true
+							out = append(out, d)
 						}
 					}
 				}
 			}
-			conflict(a.writes, b.writes, a, b)
-			conflict(a.writes, b.reads, a, b)
-			conflict(b.writes, a.reads, b, a)
-			// atomic against plain
-			conflict(a.awrites, b.writes, a, b)
-			conflict(a.awrites, b.reads, a, b)
-			conflict(a.areads, b.writes, a, b)
-			conflict(b.awrites, a.writes, b, a)
-			conflict(b.awrites, a.reads, b, a)
-			conflict(b.areads, a.writes, b, a)
 		}
 	}
 	sort.Strings(out)
@@ -499,16 +674,14 @@ func (f *frame) extra(in ssa.Instruction) bool {
 	case *ssa.Send:
 		cp := f.get(x.Chan).(Ptr)
 		if cp.obj == nil {
-			panic(pathEnd{"DEADLOCK: send on nil channel blocks forever"})
+			m.block(func() bool { return false }, "send on nil channel blocks forever")
 		}
 		c := cp.obj.v.(*Chan)
+		m.block(func() bool { return c.sendReady() }, "send on full channel blocks forever @"+m.pos(x.Pos()))
 		if c.closed {
 			panic(goPanic{msg: "send on closed channel", pos: m.pos(x.Pos())})
 		}
-		if len(c.buf) >= c.cap {
-			panic(pathEnd{"DEADLOCK: send on full channel blocks forever @" + m.pos(x.Pos())})
-		}
-		c.buf = append(c.buf, f.get(x.X))
+		c.push(m, f.get(x.X))
 	case *ssa.Select:
 		f.env[x] = f.doSelect(x)
 	default:
@@ -517,28 +690,53 @@ func (f *frame) extra(in ssa.Instruction) bool {
 	return true
 }
 
+// sendReady: a send can complete now (or must panic because the channel is closed). An unbuffered channel takes a value
+// only while a receiver is parked on it (the sender then runs on before the receiver picks the value up: weaker than a
+// rendezvous, the same happens-before edge).
+func (c *Chan) sendReady() bool {
+	if c.closed {
+		return true
+	}
+	if c.cap == 0 {
+		return c.waitingRecv > 0 && len(c.buf) == 0
+	}
+	return len(c.buf) < c.cap
+}
+func (c *Chan) recvReady() bool { return len(c.buf) > 0 || c.closed }
+
+func (c *Chan) push(m *M, v Value) {
+	c.buf = append(c.buf, v)
+	c.bufVC = append(c.bufVC, m.sched.cur.release())
+}
+func (c *Chan) pop(m *M) Value {
+	v := c.buf[0]
+	m.sched.cur.acquire(c.bufVC[0])
+	c.buf, c.bufVC = c.buf[1:], c.bufVC[1:]
+	return v
+}
+
 func (f *frame) recv(x *ssa.UnOp) Value {
 	m := f.m
 	cp := f.get(x.X).(Ptr)
 	et := x.X.Type().Underlying().(*types.Chan).Elem()
 	if cp.obj == nil {
-		panic(pathEnd{"DEADLOCK: receive from nil channel"})
+		m.block(func() bool { return false }, "receive from nil channel blocks forever")
 	}
 	c := cp.obj.v.(*Chan)
-	for len(c.buf) == 0 && !c.closed {
-		// let other goroutines run
-		if len(m.sched.pending) == 0 {
-			panic(pathEnd{"DEADLOCK: receive on empty channel with no runnable goroutine @" + m.pos(x.Pos())})
-		}
-		m.runTask(m.decide(len(m.sched.pending), "schedule"))
+	if !c.recvReady() {
+		c.waitingRecv++
+		func() {
+			defer func() { c.waitingRecv-- }()
+			m.block(c.recvReady, "receive on empty channel with no runnable goroutine @"+m.pos(x.Pos()))
+		}()
 	}
 	var v Value
 	ok := false
 	if len(c.buf) > 0 {
-		v, ok = c.buf[0], true
-		c.buf = c.buf[1:]
+		v, ok = c.pop(m), true
 	} else {
 		v = zero(et)
+		m.sched.cur.acquire(c.closeVC)
 	}
 	if x.CommaOk {
 		return Tuple{v, cBool(ok)}
@@ -566,34 +764,58 @@ func (f *frame) doSelect(x *ssa.Select) Value {
 		}
 		return t
 	}
-	var ready []int
+	chans := make([]*Chan, len(x.States))
 	for i, st := range x.States {
-		cp := f.get(st.Chan).(Ptr)
-		if cp.obj == nil {
-			continue
-		}
-		c := cp.obj.v.(*Chan)
-		if st.Dir == types.RecvOnly && (len(c.buf) > 0 || c.closed) {
-			ready = append(ready, i)
-		}
-		if st.Dir == types.SendOnly && (len(c.buf) < c.cap || c.closed) {
-			ready = append(ready, i)
+		if cp := f.get(st.Chan).(Ptr); cp.obj != nil {
+			chans[i] = cp.obj.v.(*Chan)
 		}
 	}
+	readyCases := func() []int {
+		var ready []int
+		for i, st := range x.States {
+			c := chans[i]
+			if c == nil {
+				continue
+			}
+			if st.Dir == types.RecvOnly && c.recvReady() {
+				ready = append(ready, i)
+			}
+			if st.Dir == types.SendOnly && c.sendReady() {
+				ready = append(ready, i)
+			}
+		}
+		return ready
+	}
+	ready := readyCases()
 	if len(ready) == 0 {
 		if !x.Blocking {
 			return mk(-1, false, -1, nil)
 		}
-		panic(pathEnd{"DEADLOCK: blocking select with no ready case @" + m.pos(x.Pos())})
+		for i, st := range x.States {
+			if st.Dir == types.RecvOnly && chans[i] != nil {
+				chans[i].waitingRecv++
+			}
+		}
+		func() {
+			defer func() {
+				for i, st := range x.States {
+					if st.Dir == types.RecvOnly && chans[i] != nil {
+						chans[i].waitingRecv--
+					}
+				}
+			}()
+			m.block(func() bool { return len(readyCases()) > 0 }, "blocking select with no ready case @"+m.pos(x.Pos()))
+		}()
+		ready = readyCases()
 	}
 	pick := ready[m.decide(len(ready), "select")]
 	st := x.States[pick]
-	c := f.get(st.Chan).(Ptr).obj.v.(*Chan)
+	c := chans[pick]
 	if st.Dir == types.SendOnly {
 		if c.closed {
 			panic(goPanic{msg: "send on closed channel"})
 		}
-		c.buf = append(c.buf, f.get(st.Send))
+		c.push(m, f.get(st.Send))
 		return mk(pick, false, -1, nil)
 	}
 	which := 0
@@ -603,10 +825,9 @@ func (f *frame) doSelect(x *ssa.Select) Value {
 		}
 	}
 	if len(c.buf) > 0 {
-		v := c.buf[0]
-		c.buf = c.buf[1:]
-		return mk(pick, true, which, v)
+		return mk(pick, true, which, c.pop(m))
 	}
+	m.sched.cur.acquire(c.closeVC)
 	return mk(pick, false, which, zero(recvTypes[which]))
 }
 
@@ -635,6 +856,7 @@ func (f *frame) runDefers() {
 					panic(goPanic{msg: "close of closed channel"})
 				}
 				c.closed = true
+				c.closeVC = m.sched.cur.release()
 			case d.bi == "recover":
 				m.doRecover()
 			case d.bi != "":
